@@ -44,7 +44,7 @@ local function frame_args_index(new_args, key)
         if type(v) == "userdata" then
             -- Python tuple in luaexec.call_lua_sandbox.make_frame()
             local is_named = v[1]
-            v = frame:preprocess(v[0])
+            if v[2] then v = v[0] else v = frame:preprocess(v[0]) end
             -- https://en.wikipedia.org/wiki/Help:Template#Whitespace_handling
             if is_named then
                 v = v:match "^%s*(.-)%s*$"
